@@ -1180,7 +1180,7 @@ class Arithmetic(Expr):
             def ordinal(match):
                 return str(ord(match.group(0)[1:-1].encode('utf-8').decode('unicode_escape')))
             try:
-                expr = re.sub(r"'(\\x[0-9a-fA-F]{2}|\\u[0-9a-fA-F]{4}|\\[0-7]{1,3}|\\.|[^\\'])'", ordinal, expr)
+                expr = re.sub(r"'(\\x[0-9a-fA-F]{2}|\\u[0-9a-fA-F]{4}|\\[0-7]{1,3}|\\.|[^\\']|'(?='))'", ordinal, expr)
             except (TypeError, UnicodeDecodeError):
                 raise AssemblerError('invalid char literal in expr: "{}"'.format(self.expr), line)
 
@@ -2256,7 +2256,7 @@ def lex_tokens(line):
     def stash(match):
         chars.append(match.group(0))
         return ' \x00{}\x00 '.format(len(chars) - 1)
-    contents = re.sub(r"'(\\x[0-9a-fA-F]{2}|\\u[0-9a-fA-F]{4}|\\[0-7]{1,3}|\\.|[^\\'])'", stash, line.contents)
+    contents = re.sub(r"'(\\x[0-9a-fA-F]{2}|\\u[0-9a-fA-F]{4}|\\[0-7]{1,3}|\\.|[^\\']|'(?='))'", stash, line.contents)
 
     # strip comments
     contents = re.sub(r'#.*$', r'', contents)
